@@ -114,9 +114,11 @@ impl Property for GramProp {
         220
     }
     fn cases(&self, tier: Tier) -> u64 {
-        match tier {
-            Tier::Quick => 100_000,
-            Tier::Thorough => 2_000_000,
+        match (self.id, tier) {
+            ("C12", Tier::Quick) => 250_000,
+            (_, Tier::Quick) => 500_000,
+            ("C12", Tier::Thorough) => 3_000_000,
+            (_, Tier::Thorough) => 6_000_000,
         }
     }
     fn generate(&self, s: &mut Src) -> Case {
